@@ -176,6 +176,65 @@ void h_dup(void)
     }
     VCANARY();
 }
+
+#ifndef SOUND
+/* ---- split into fields (UBUF_PICTURE_SPLIT_FIELDS -> ubuf_pic_common_split_fields), property C19 for the two field buffers:
+ * "any plane window accepted for mapping lies entirely inside the memory allocated for that plane" and the lines of a field
+ * are the lines of that parity of the picture: field f, line r, column c is the picture's pixel (2r + f, c).
+ * One plane (vsub 1), symbolic line count, vertical margins and line length; the plane lives in a real 96-octet area.
+ * A failed duplication (second dup) must not be dereferenced and leaves nothing allocated (C01). */
+static struct { struct ubuf_pic_mem m; struct ubuf_pic_common_plane slot[1]; } g_obj3;
+static uint8_t g_bigarea[96];
+static int g_dups;
+static void *stub_obj_alloc2(struct upool *p)
+{
+    if (g_alloc_fails && g_dups >= 1) return NULL;                      /* the second structure cannot be had */
+    if (g_dups >= 2) return NULL;
+    struct ubuf_pic_mem *m = g_dups == 0 ? &g_obj2.m : &g_obj3.m; g_dups++; g_obj_live++;
+    m->ubuf_pic_common.ubuf.mgr = &g_mm.common_mgr.mgr; m->readers = 0; m->shared = (struct ubuf_mem_shared *)8;
+    return m;
+}
+#ifdef NO_ALLOC_FAILURE
+#define SPLIT_ALLOC_OK(x) (((x) & 1) == 0)
+#else
+#define SPLIT_ALLOC_OK(x) true
+#endif
+void h_split_fields(void)
+{
+    VIN(uint8_t, sw); VIN(uint8_t, lines); VIN(uint8_t, vpre); VIN(uint8_t, vapp); VIN(uint8_t, saf); VIN(uint8_t, gr); VIN(uint8_t, gc); VIN(uint8_t, gf);
+    VASSUME(SPLIT_ALLOC_OK(saf) && sw >= 1 && sw <= 4 && lines >= 2 && lines <= 8 && lines % 2 == 0 && vpre <= 4 && vapp <= 4 && (size_t)(vpre + lines + vapp) * sw <= sizeof(g_bigarea));
+    struct ubuf *ubuf = build(1, sw, lines);
+    g_shared.umem.buffer = g_bigarea; g_shared.umem.size = (size_t)(vpre + lines + vapp) * sw;
+    g_obj.m.ubuf_pic_common.vprepend = vpre; g_obj.m.ubuf_pic_common.vappend = vapp; g_obj.m.ubuf_pic_common.planes[0].buffer = g_bigarea;
+    g_mm.common_mgr.mgr.ubuf_free = MEMFREE;
+    g_mm.ubuf_pool.alloc_cb = stub_obj_alloc2; g_mm.ubuf_pool.free_cb = stub_obj_free; g_mm.ubuf_pool.refcount = NULL;
+    g_mm.shared_pool.alloc_cb = NULL; g_mm.shared_pool.free_cb = stub_shared_free; g_mm.shared_pool.refcount = NULL;
+    g_shared.pool = &g_mm.shared_pool; g_umem_mgr.umem_free = stub_umem_free; g_shared.umem.mgr = &g_umem_mgr;
+    g_obj_live = g_obj_freed = g_shared_freed = g_umem_freed = 0; g_dups = 0; g_alloc_fails = (saf & 1) != 0;
+    struct ubuf *odd = NULL, *even = NULL;
+    int r = call_ctl(ubuf, UBUF_PICTURE_SPLIT_FIELDS, ubuf, &odd, &even);
+    if (r != UBASE_ERR_NONE) {
+        VPOST(g_obj_live == g_obj_freed && g_shared.refcount == 1);          /* nothing kept */
+    } else {
+        VPOST(odd != NULL && even != NULL && odd != even && g_shared.refcount == 3);
+        const uint8_t *pic = NULL, *fld = NULL;
+        VPOST(READ(ubuf, &pic) == UBASE_ERR_NONE && pic == g_bigarea + (size_t)vpre * sw);
+        struct ubuf *f = (gf & 1) ? odd : even;
+        size_t fh = 0, fv = 0; uint8_t mp = 0;
+        VPOST(ubuf_pic_common_size(f, &fh, &fv, &mp) == UBASE_ERR_NONE && fh == sw && fv == (size_t)lines / 2);
+        VPOST(READ(f, &fld) == UBASE_ERR_NONE);
+        size_t fstride = ((struct ubuf_pic_common *)ubuf_pic_common_from_ubuf(f))->planes[0].stride;
+        VPOST(fstride == 2u * sw);
+        /* field pixel (gr, gc) is picture pixel (2 gr + parity, gc), inside the allocation */
+        if (gr < lines / 2 && gc < sw) {
+            const uint8_t *fp = fld + (size_t)gr * fstride + gc, *pp = pic + (size_t)(2 * gr + (gf & 1)) * sw + gc;
+            VPOST(fp >= g_bigarea && fp < g_bigarea + g_shared.umem.size);
+            VPOST(fp == pp);
+        }
+    }
+    VCANARY();
+}
+#endif
 #ifdef VENTRY
 VMAIN(VENTRY)
 #endif
